@@ -157,7 +157,7 @@ def check_property(prop, tier="quick", seed=0, jobs=16):
             bounded.append(dict(harness=k["harness"], bound=k.get("bound", ""), status=r["status"], checks=r["total"]))
         for fn in k.get("fns", []):
             fns_under_contract.append(dict(fn=fn, engine=("Kb:" if is_bounded else "K:") + k["harness"]))
-        viol, und, ign = K.classify(r, prop, k.get("allow", ()))
+        viol, und, ign = K.classify(r, prop, k.get("allow", ()), k.get("loop_contract"))
         n_checks = r["total"]
         kb["checks"] += n_checks
         kb["unreachable"] += r["unreachable"]
